@@ -275,7 +275,10 @@ def run_case(case):
         if len(lab.get(32700, [])) != 1:
             v("C06/dispatcher/not-exactly-one-32700", count=len(lab.get(32700, [])))
         else:
-            for code, tgt in ((2, brk_t if brk_t is not None else err_t), (7, err_t), (215, err_t)):
+            # code 2 is the break key; every other run-time error number goes to the ON ERR line (54 is BASIC09's RETURN
+            # without GOSUB, whose Color BASIC number happens to be 2; 43, 52, 56, 67 are the codes the runtime raises itself)
+            others = (1, 3, 7, 10, 43, 52, 54, 56, 67, 215, 255) if case.get("tier") != "thorough" else tuple(c for c in range(1, 256) if c != 2)
+            for code, tgt in ((2, brk_t if brk_t is not None else err_t),) + tuple((c, err_t) for c in others):
                 if tgt is None:
                     continue
                 b = harness.run_b09(conv["out"], budget=400, start_label=32700, err=code)
@@ -303,7 +306,7 @@ OPTS = [{}, {"filter_unused_linenum": True}, {"add_suffix": False}, {"filter_unu
 def cases(tier, seed):
     n = 2500 if tier == "quick" else 200000
     for i in range(n):
-        yield {"kind": "graph", "seed": seed * 48271 + i, "opts": OPTS[i % len(OPTS)], "sample": i % 700 == 0, "big": i % 40 == 39,
+        yield {"kind": "graph", "seed": seed * 48271 + i, "opts": OPTS[i % len(OPTS)], "sample": i % 700 == 0, "big": i % 40 == 39, "tier": tier,
                "spacers": i % 5 == 2}
     for ln in (32698, 32699, 32700, 32701, 32767, 32768, 65535, 100000):
         for o in OPTS[:2]:
